@@ -320,13 +320,14 @@ HASATTR[("ipset", "_cidrs")] = True
 for _u in SETS_FILES:
     UNIT_NAMES[_u] = {"_sys_maxint": ("int", "ssize_max")}
 # fuel of the while loops of sets.py (the hand model's: Sets.contains_walk runs on Z.to_nat prefixlen + 1)
-FUEL[("IPSet", "__contains__", 1)] = ("supernet._prefixlen", 1)
+# (written over parameters and the state only, so that renaming a local does not break the translation)
+FUEL[("IPSet", "__contains__", 1)] = ("ip._prefixlen", 1)
 FUEL[(None, "_subtract", 1)] = ("len(subnets)", 1)
 for _m in ("intersection", "difference", "symmetric_difference"):       # Sets.inter_loop / diff_loop / symdiff_loop: length a + length b + 1
-    FUEL[("IPSet", _m, 1)] = ("own_len + other_len", 1)
-FUEL[("IPSet", "difference", 2)] = ("own_len", 1)
-FUEL[("IPSet", "symmetric_difference", 2)] = ("own_len", 1)
-FUEL[("IPSet", "symmetric_difference", 3)] = ("other_len", 1)
+    FUEL[("IPSet", _m, 1)] = ("len(self_cidrs) + len(other._cidrs)", 1)
+FUEL[("IPSet", "difference", 2)] = ("len(self_cidrs)", 1)
+FUEL[("IPSet", "symmetric_difference", 2)] = ("len(self_cidrs)", 1)
+FUEL[("IPSet", "symmetric_difference", 3)] = ("len(other._cidrs)", 1)
 # a list parameter that the function appends to and the caller reads afterwards: function -> index of that parameter; the function
 # returns (that list, its value), the call `x = f(.., l)` is `l, x = f(.., l)`
 SETS_OUTPARAM = {"_subtract": 3}
@@ -2631,6 +2632,14 @@ def sets_call(self, node, env):
         (td, d) = self.ex(node.args[0], env)
         if td == "dict":
             return (("list", Cell("net")), "(py_sorted_nets %s)" % d)   # IPNetwork ordering: BaseIP.__lt__ on sort_key()
+        self.restore(snap)
+        self.pre = pre0
+        return None
+    if name == "len" and plain and len(node.args) == 1 and not self.mod.toplevel("len"):
+        snap, pre0 = self.snapshot(), list(self.pre)
+        (td, d) = self.ex(node.args[0], env)
+        if td == "dict":
+            return ("int", "(Z.of_nat (List.length %s))" % d)           # the number of keys
         self.restore(snap)
         self.pre = pre0
         return None
